@@ -567,7 +567,13 @@ def call_api(G, api, func, pts, boots, p0, data, eps, multinom, log=False, neste
     if api == 'LRT_adjust':
         return G.LRT_adjust(func, pts, boots, p0, data, nested, multinom=multinom, eps=eps, boot_theta_adjusts=thetas)
     if api == 'Wald_stat':
-        return G.Wald_stat(func, pts, boots, p0, data, nested, full, multinom=multinom, eps=eps, adj_and_org=True)
+        # `full_params` may be given for the nested parameters only (in the order of `nested_indices`) or as the complex model's whole
+        # parameter list; half of the unambiguous cases use the second form (decided from the case's own numbers, so a replay repeats it)
+        fp = full
+        if (not multinom) and nested is not None and len(nested) < len(p0) and int(round(abs(float(full[0])) * 1e6)) % 2 == 0:
+            fp = [float(v) for v in p0]
+            for k_, i_ in enumerate(nested): fp[i_] = full[k_]
+        return G.Wald_stat(func, pts, boots, p0, data, nested, fp, multinom=multinom, eps=eps, adj_and_org=True)
     if api == 'score_stat':
         return G.score_stat(func, pts, boots, p0, data, nested, multinom=multinom, eps=eps, adj_and_org=True)
     raise KeyError(api)
@@ -614,7 +620,18 @@ def gen_pipeline_case(rng, dadi, api=None, **force):
             # Wald_stat reads a `full_params` of length len(p0) as the whole parameter list: keep the nested form unambiguous
             if api == 'Wald_stat' and multinom and n in nested and len(nested) == n:
                 nested = sorted(int(i) for i in rng.choice(n, size=min(k, n), replace=False))
+            # the caller lists the nested parameters in any order (not only ascending)
+            # (Wald_stat reads a full_params as long as p0 as the whole parameter list in parameter order: with all n parameters nested the
+            #  two readings coincide only for ascending indices, so that case keeps them ascending)
+            if len(nested) >= 2 and not (api == 'Wald_stat' and len(nested) >= n) and rng.random() < 0.6:
+                nested = [int(i) for i in rng.permutation(nested)]
+        if force.get('nested_desc') and len(nested) >= 2 and not (api == 'Wald_stat' and len(nested) >= n):
+            nested = sorted(nested, reverse=True)
         full = [coarse((p[i] if i < n else theta) * rng.uniform(0.7, 1.3)) for i in nested]
+        if force.get('full_long') is not None:
+            # call_api passes the whole parameter list for Wald_stat when round(|full[0]|*1e6) is even: steer that choice
+            want_even = bool(force['full_long'])
+            if (int(round(abs(float(full[0])) * 1e6)) % 2 == 0) != want_even: full[0] = full[0] + 1e-6
     tmode = force.get('thetas_mode')
     if tmode is None:
         tmode = 'none'
@@ -1109,6 +1126,13 @@ def nested_matrix(rng, dadi):
         for k in (1, 2, 3):
             for multinom in (False, True):
                 cases.append(gen_pipeline_case(rng, dadi, api=api, nparam=3, multinom=multinom, log=False, thetas_mode='none', nested_size=k))
+    # nested parameters listed in descending order; Wald_stat with full_params given as the whole parameter list and as the nested values
+    for api in ('LRT_adjust', 'Wald_stat', 'score_stat'):
+        for long in ((True, False) if api == 'Wald_stat' else (None,)):
+            cases.append(gen_pipeline_case(rng, dadi, api=api, nparam=3, multinom=False, log=False, thetas_mode='none', nested_size=2,
+                                           nested_desc=True, full_long=long))
+            cases.append(gen_pipeline_case(rng, dadi, api=api, nparam=4, multinom=False, log=False, thetas_mode='none', nested_size=3,
+                                           nested_desc=True, full_long=long))
     return cases
 
 def mask_matrix(rng, dadi):
